@@ -146,7 +146,7 @@ class SymCtx:
             out = []
             for alt in alts:
                 terms = [Z(x) if isinstance(x, (IntV, int)) else x for x in (alt if isinstance(alt, tuple) else (alt,))]
-                if all(_pat_ok(x) for x in terms):
+                if all(_pat_ok(x) for x in terms) and _mentions(terms, [i]):
                     out.append(z3.MultiPattern(*terms) if len(terms) > 1 else terms[0])
             pat = out or None  # an unusable trigger is dropped (z3 chooses)
         return BoolV(_forall([i], f, pat))
@@ -162,7 +162,7 @@ class SymCtx:
         f = z3.Implies(z3.And(i >= Z(lo), i < Z(hi), j >= Z(lo), j < Z(hi)), B(body(IntV(i), IntV(j))))
         if pattern is not None:
             pats = [Z(x) if isinstance(x, (IntV, int)) else x for x in pattern(IntV(i), IntV(j))]
-            if all(_pat_ok(x) for x in pats):
+            if all(_pat_ok(x) for x in pats) and _mentions(pats, [i, j]):
                 return BoolV(z3.ForAll([i, j], f, patterns=[z3.MultiPattern(*pats) if len(pats) > 1 else pats[0]], qid=_qid()))
         return BoolV(z3.ForAll([i, j], f, qid=_qid()))
 
@@ -193,6 +193,29 @@ class SymCtx:
         every goal); for quantifiers over r whose body mentions r only under further binders"""
         idm = seq.meta.get("idmark")
         return IntV(idm(Z(r))) if idm is not None else None
+
+    def desc_run(self, t, j):
+        """(lo, hi): the maximal strictly decreasing run [lo, hi) of the sequence t that contains index j.
+        RUN-DECOMPOSITION: lo and hi are Skolem functions of the theorem "every index of a finite integer
+        sequence lies in a maximal decreasing run" - a fact about finite sequences, not about code, stated once
+        per sequence as an axiom and listed under rules_used."""
+        eng = self.engine
+        lo, hi = self.ghost("RUNLO", t, j), self.ghost("RUNHI", t, j)
+        done = eng.__dict__.setdefault("_desc_run_done", set())
+        key = z3.simplify(Z(lo)).decl().get_id()
+        if key not in done:
+            done.add(key)
+            eng.rules_used.add("RUN-DECOMPOSITION (every index of a finite sequence lies in a maximal strictly decreasing run; run bounds as Skolem functions)")
+            n = Z(self.len(t))
+            jv, k, l = fresh("rj"), fresh("rk"), fresh("rl")
+            L, H = Z(self.ghost("RUNLO", t, IntV(jv))), Z(self.ghost("RUNHI", t, IntV(jv)))
+            at = lambda x: Z(t[x])  # noqa: E731
+            inr = z3.And(jv >= 0, jv < n)
+            eng.global_axioms.append(z3.ForAll([jv], z3.Implies(inr, z3.And(0 <= L, L <= jv, jv < H, H <= n)), patterns=[L, H], qid="run-bounds"))
+            eng.global_axioms.append(z3.ForAll([jv], z3.Implies(inr, z3.And(z3.Or(L == 0, at(L - 1) < at(L)), z3.Or(H == n, at(H - 1) < at(H)))), patterns=[L, H], qid="run-maximal"))
+            eng.global_axioms.append(z3.ForAll([jv, k, l], z3.Implies(z3.And(inr, L <= k, k < l, l < H), at(k) > at(l)),
+                                               patterns=[z3.MultiPattern(L, at(k), at(l))], qid="run-decreasing"))
+        return lo, hi
 
     def count_below(self, t, v, upto=None):
         """number of positions j (< upto, default: all) of the tuple t with t[j] < v"""
@@ -458,6 +481,22 @@ def _clean(t):
     return False
 
 
+def _mentions(terms, consts):
+    """every one of the bound constants occurs in one of the terms (a trigger must bind all variables)"""
+    need = {c_.get_id() for c_ in consts}
+    seen = set()
+    todo = list(terms)
+    while todo and need:
+        t = todo.pop()
+        if t.get_id() in seen:
+            continue
+        seen.add(t.get_id())
+        need.discard(t.get_id())
+        if z3.is_app(t):
+            todo.extend(t.children())
+    return not need
+
+
 def _pat_ok(t):
     return z3.is_app(t) and t.decl().kind() == z3.Z3_OP_UNINTERPRETED and t.num_args() > 0 and _clean(t)
 
@@ -545,6 +584,16 @@ class RunCtx:
 
     def same_tuple(self, a, b):
         return tuple(a) == tuple(b)
+
+    def desc_run(self, t, j):
+        t = tuple(t)
+        lo = hi = j
+        while lo > 0 and t[lo - 1] > t[lo]:
+            lo -= 1
+        hi = j + 1
+        while hi < len(t) and t[hi - 1] > t[hi]:
+            hi += 1
+        return lo, hi
 
     def count_below(self, t, v, upto=None):
         k = len(t) if upto is None else upto
